@@ -9,6 +9,7 @@ C03.R1  slice cursor: pop/try_take_n/finalize return exactly [cursor..], exhaust
 """
 import re
 
+import summ2
 import sym
 import tbl
 import lin
@@ -208,6 +209,11 @@ def check_method(run, F, helpers, fn):
     n = fn.name
     eng = sym.Engine(F, inline=inline_policy, max_visits=2)
     paths = [p for p in eng.run(fn) if p.status != "infeasible"]
+    try:
+        paths = summ2.expand_paths(F, fn, paths)
+    except Exception as ex:
+        run.bad("T1", key, "could not normalise the returned values: %s" % ex, site)
+        return
     problems = []
     accepts = 0
 
@@ -231,7 +237,7 @@ def check_method(run, F, helpers, fn):
         fr = failed_read(cx, p, evs)
         if fr is not None:
             # C03.E1: propagate unchanged, nothing after it
-            if p.ret != ("err_from", fr["result"]) and not _err_from_through_map(p.ret, fr):
+            if not propagates(p.ret, fr["result"]):
                 problems.append("E1: failure of %s is not propagated unchanged (returns %s)" % (fr["key"], sym.show(p.ret)))
             if evs.index(fr) != len(evs) - 1 and any(classify(cx, e)[0] not in ("STD",) for e in evs[evs.index(fr) + 1:]):
                 problems.append("E1: continues after a failed read")
@@ -248,6 +254,14 @@ def check_method(run, F, helpers, fn):
         run.bad("T1", key, problems[0], site, expected=describe(n, tr), found=problems[:6])
     else:
         run.ok("T1", key, describe(n, tr), site, method="TBL+BIT over %d path(s)" % len(paths))
+
+
+def propagates(ret, result):
+    """the returned value is the failure of `result`, unchanged"""
+    if ret == ("err_from", result) or _err_from_through_map(ret, {"result": result}):
+        return True
+    src = summ2.err_source(ret)
+    return src is not None and norm(src) == norm(result)
 
 
 def _err_from_through_map(ret, fr):
@@ -296,7 +310,12 @@ def check_accept_or_reject(cx, fn, p, evs, P, seen):
     F = cx.F
 
     def tail_is(e):
-        return ret == e["result"]
+        # the call's result is the function's result (directly, or eta-expanded into Ok(okval(r)) / Err(errval(r)))
+        if ret == e["result"]:
+            return True
+        if ret[0] == "agg" and ret[3] == "Ok" and ret[5] and norm(ret[5][0]) == norm(("okval", e["result"])):
+            return True
+        return propagates(ret, e["result"])
 
     def errkind():
         return tbl.error_variant(F, ret)
@@ -546,7 +565,7 @@ def check_accept_or_reject(cx, fn, p, evs, P, seen):
             return "the variant index read is not what is handed to the variant seed"
         st = p.tagfacts.get(("tag", sd[0]["result"]))
         if st == 1:
-            if ret != ("err_from", sd[0]["result"]):
+            if not propagates(ret, sd[0]["result"]):
                 return "seed failure not propagated"
             return None
         if not (ret[0] == "agg" and ret[3] == "Ok"):
@@ -577,7 +596,7 @@ def check_accept_or_reject(cx, fn, p, evs, P, seen):
             return "element seed is not driven by the wrapped deserializer"
         st = p.tagfacts.get(("tag", sd[0]["result"]))
         if st == 1:
-            if ret != ("err_from", sd[0]["result"]):
+            if not propagates(ret, sd[0]["result"]):
                 return "element failure not propagated"
             return None
         pay = ret[5][0] if ret[0] == "agg" and ret[3] == "Ok" else None
@@ -588,6 +607,14 @@ def check_accept_or_reject(cx, fn, p, evs, P, seen):
     if n == "size_hint":
         return None  # decided under C04.H
     return "no table cell for method %s" % n
+
+
+def bin_tag(v):
+    """variant index of an Option/Result from a tag fact: `not {1}` is 0 and `not {0}` is 1 (there are only two variants)"""
+    if isinstance(v, tuple) and v and v[0] == "not":
+        rest = {0, 1} - set(v[1])
+        return rest.pop() if len(rest) == 1 else None
+    return v
 
 
 def check_char_tail(cx, p, evs, vis, s, sz, seen, errkind, tail_is):
@@ -602,7 +629,7 @@ def check_char_tail(cx, p, evs, vis, s, sz, seen, errkind, tail_is):
     tagv = None
     for a, v in p.tagfacts.items():
         if a == ("tag", t1):
-            tagv = v
+            tagv = bin_tag(v)
     if tagv == 0:
         if vis or errkind() != "DeserializeBadChar":
             return "empty char encoding returns something other than Err(BadChar)"
@@ -623,7 +650,7 @@ def check_char_tail(cx, p, evs, vis, s, sz, seen, errkind, tail_is):
     single = False
     if len(nexts) >= 2:
         t2 = nexts[1]["result"]
-        if p.tagfacts.get(("tag", t2)) == 0:
+        if bin_tag(p.tagfacts.get(("tag", t2))) == 0:
             single = True
     for cond, truth, kind in p.pc:
         txt = repr(cond)
